@@ -10,6 +10,7 @@ import (
 	"runtime"
 	"strings"
 	"sync"
+	"sync/atomic"
 	"time"
 
 	"github.com/pion/stun/v3"
@@ -65,10 +66,11 @@ func (c *gctl) register(name string) {
 func (c *gctl) procName() string {
 	c.mu.Lock()
 	defer c.mu.Unlock()
-	if n, ok := c.procs[goid()]; ok {
+	g := goid()
+	if n, ok := c.procs[g]; ok {
 		return n
 	}
-	return "?"
+	return fmt.Sprintf("g%d", g)
 }
 
 func (c *gctl) arrive(name string, info map[string]interface{}) gateResp {
@@ -95,16 +97,31 @@ type gConn struct {
 	closed  bool
 	closeCh chan struct{}
 	// free-running mode
-	inQ chan []byte
+	inQ  chan []byte
+	outQ chan []byte
+	failEvery int
+	nwrites   int32
 }
 
 func (g *gConn) Write(b []byte) (int, error) {
 	raw := append([]byte(nil), b...)
 	r := g.c.arrive("conn.Write", map[string]interface{}{"raw": raw})
 	ok := !r.fail
+	if g.outQ != nil {
+		n := atomic.AddInt32(&g.nwrites, 1)
+		if g.failEvery > 0 && int(n)%g.failEvery == 0 {
+			ok = false
+		}
+	}
 	g.c.log(map[string]interface{}{"k": "write", "p": g.c.procName(), "id": idOfRaw(raw), "raw": ints(raw), "t": g.c.now(), "ok": ok})
 	if !ok {
 		return 0, errInjectedWrite
+	}
+	if g.outQ != nil {
+		select {
+		case g.outQ <- raw:
+		default:
+		}
 	}
 	return len(b), nil
 }
@@ -117,9 +134,12 @@ func (g *gConn) Read(b []byte) (int, error) {
 	free := g.c.free
 	g.c.mu.Unlock()
 	if free {
+		g.c.log(map[string]interface{}{"k": "read", "p": g.c.procName()})
 		select {
 		case d := <-g.inQ:
-			return copy(b, d), nil
+			n := copy(b, d)
+			g.c.log(map[string]interface{}{"k": "read_ret", "p": g.c.procName(), "n": n, "id": idOfRaw(d), "raw": ints(d[:n])})
+			return n, nil
 		case <-g.closeCh:
 			return 0, io.EOF
 		}
@@ -294,15 +314,15 @@ func evKind(e stun.Event) string {
 func cliID(k int) (id [stun.TransactionIDSize]byte) {
 	id[0] = 0xC1
 	id[5] = byte(k)
+	id[6] = byte(k >> 8)
 	id[11] = 0x7e
 	return id
 }
 
 func idIndex(id [stun.TransactionIDSize]byte) int {
-	for k := 0; k < 256; k++ {
-		if cliID(k) == id {
-			return k
-		}
+	k := int(id[5]) | int(id[6])<<8
+	if cliID(k) == id {
+		return k
 	}
 	return -1
 }
